@@ -232,6 +232,7 @@ FieldZero(s, p) ==
     LET f == FieldOf(s.layout, p.name) IN
     IF Nullable(f) THEN None
     ELSE IF f.fk \in {"sub", "wide"} THEN Some(ZeroStruct(p.type))
+    ELSE IF f.fk = "objmap" THEN Some(M("string_any", <<>>))        \* a nil map[string]any is the empty mapping
     ELSE IF f.fk = "named" /\ p.type.kind = "string" THEN Some(Str("#empty"))   \* a plain string schema sees the string it converts to
     ELSE Some(ZeroOf(f.fk))
 ZeroStruct(s) == Struct(s.layout, [i \in DOMAIN s.props |-> <<s.props[i].name, FieldZero(s, s.props[i])>>])
